@@ -65,11 +65,11 @@ func backing(bs []byte, ln int) []byte {
 }
 
 func init() {
-	runners["enc"] = func(a []string) string {
+	runners["benc"] = func(a []string) string {
 		e, _ := encScript(a[0])
 		return hx(e.Bytes())
 	}
-	runners["rt"] = func(a []string) string {
+	runners["brt"] = func(a []string) string {
 		e, toks := encScript(a[0])
 		n := len(e.Bytes())
 		buf := append(append([]byte{}, e.Bytes()...), unhex(a[1])...)
@@ -102,7 +102,7 @@ func init() {
 		}
 		return fmt.Sprintf("ok %d", d.Offset())
 	}
-	runners["dec"] = func(a []string) (res string) {
+	runners["bdec"] = func(a []string) (res string) {
 		var out []string
 		defer func() {
 			if r := recover(); r != nil {
@@ -151,7 +151,7 @@ func init() {
 		out = append(out, fmt.Sprintf("@%d", stack[len(stack)-1].Offset()))
 		return strings.Join(out, " ")
 	}
-	runners["align"] = func(a []string) string {
+	runners["balign"] = func(a []string) string {
 		base, off := atoi(a[0]), atoi(a[1])
 		root := ofbase.NewDecoder(make([]byte, base+off+64))
 		root.Skip(base)
@@ -160,7 +160,7 @@ func init() {
 		c.SkipAlign()
 		return fmt.Sprintf("%d %d", c.Offset(), c.BaseOffset())
 	}
-	runners["hdr"] = func(a []string) string {
+	runners["bhdr"] = func(a []string) string {
 		d := ofbase.NewDecoder(backing(unhex(a[0]), atoi(a[1])))
 		var h ofbase.Header
 		if err := h.Decode(d); err != nil {
@@ -206,17 +206,17 @@ func init() {
 			return "a"
 		}
 		kinds := []string{"b", "h", "w", "q", "x", "r", "a"}
-		c.run("enc", ".")
-		c.run("rt", ".", "-")
+		c.run("benc", ".")
+		c.run("brt", ".", "-")
 		// every pair and triple of kinds (alignment after every residue), then random sequences
 		for _, k1 := range kinds {
-			c.run("rt", rv(k1), "-")
+			c.run("brt", rv(k1), "-")
 			for _, k2 := range kinds {
 				s := rv(k1) + "," + rv(k2)
-				c.run("enc", s)
-				c.run("rt", s, "ffee")
+				c.run("benc", s)
+				c.run("brt", s, "ffee")
 				for _, k3 := range kinds {
-					c.run("rt", s+","+rv(k3), "-")
+					c.run("brt", s+","+rv(k3), "-")
 				}
 			}
 		}
@@ -225,8 +225,8 @@ func init() {
 			for i := 0; i < pad; i++ {
 				s += "b:1,"
 			}
-			c.run("enc", s+"a")
-			c.run("rt", s+"a,h:513", "-")
+			c.run("benc", s+"a")
+			c.run("brt", s+"a,h:513", "-")
 		}
 		n := 4000
 		if c.thorough() {
@@ -240,30 +240,30 @@ func init() {
 			}
 			s := strings.Join(ts, ",")
 			if i%4 == 0 {
-				c.run("enc", s)
+				c.run("benc", s)
 			}
 			tl := "-"
 			if i%3 == 0 {
 				tl = "a1b2c3"
 			}
-			c.run("rt", s, tl)
+			c.run("brt", s, tl)
 		}
 		// alignment: every (base, offset) pair 0..40
 		for b := 0; b <= 40; b++ {
 			for o := 0; o <= 40; o++ {
-				c.run("align", b, o)
+				c.run("balign", b, o)
 			}
 		}
 		// header decode: all short inputs 0..7 (and with spare capacity), exact and long
 		full := "0405001011223344aabbccddeeff0011"
 		for ln := 0; ln <= 16; ln++ {
-			c.run("hdr", hx(unhex(full)[:ln]), ln)
-			c.run("hdr", full, ln) // cap 16 > len
+			c.run("bhdr", hx(unhex(full)[:ln]), ln)
+			c.run("bhdr", full, ln) // cap 16 > len
 		}
 		for i := 0; i < 300; i++ {
 			b := make([]byte, 8+c.rng.Intn(8))
 			c.rng.Read(b)
-			c.run("hdr", hx(b), c.rng.Intn(len(b)+1))
+			c.run("bhdr", hx(b), c.rng.Intn(len(b)+1))
 		}
 		// raw decoder scripts incl. short buffers, spare capacity, nested slicing up to depth 4
 		rops := []string{"b", "h", "w", "q", "x", "r:3", "r:0", "a", "s:1", "s:5", "sl:8:0", "sl:12:4", "sl:6:2", "sl:20:0", "up"}
@@ -302,7 +302,7 @@ func init() {
 			if len(ts) > 0 {
 				s = strings.Join(ts, ",")
 			}
-			c.run("dec", hx(b), ln, s)
+			c.run("bdec", hx(b), ln, s)
 		}
 	}
 }
